@@ -294,6 +294,13 @@ impl Drop for Execution {
         let mut buf = [0; 4096];
         while let Ok(1..) = self.out_stream.read(&mut buf) {}
         let _ = self.child.lock().unwrap().wait();
+        // Wait for the thread that captures the standard error. If the output goes through
+        // a named pipe, that thread opens the pipe for writing after the child has exited.
+        // That must happen before the reading end (`out_stream`) is closed, otherwise the thread
+        // would block forever and keep a file descriptor reserved.
+        if let Some(err_stream) = self.err_stream.take() {
+            let _ = err_stream.join();
+        }
     }
 }
 
